@@ -14,15 +14,16 @@ Transcribed (Python → Lean):
 * `_pause_msg_queue_reading` / `_resume_msg_queue_reading` → `pauseMsgQ` / `resumeMsgQ`
 * `BaseProtocol.resume_reading`                 → `protoResume` (with parser re-entry) / `protoResumeNoParse`
 * `StreamReader.feed_data/feed_eof/set_exception` (waiter side) → `payloadEvent`
-* `StreamReader.read/readany/_read_nowait`      → the `.read` case of `runProg`, `lingerLoop`, `drainChunks`
+* `StreamReader.read/readany/_read_nowait`      → the `.read` case of `runProg`, the `.linger` continuation, `drainChunks`
 * `RequestHandler.start` (loop phases)          → `startRun` with continuations `SCont`
 * `_handle_request` + `Application._handle` (pre-handler error → 400, `Expect`) → `handlerStart`
 * the handler itself (an oracle: a program of `HOp`s)   → `runProg`
-* `finish_response` (declined-upgrade re-parse, prepare, write_eof) → `finishResponse`
+* `finish_response` (declined-upgrade re-parse, prepare, write_eof) → `reparseTail`, `finishFresh`, `finishDone`
 * `handle_error` (500/504, "response is sent already" → ConnectionError) → `handleError`
 * `connection_lost`, `force_close`, `close`     → `connectionLost`, `forceClose`, `closeConn`
 * `_process_keepalive`                          → `processKeepalive`
-* `HttpParser._msg_in_flight` / `message_consumed` → `inFlight`
+* `HttpParser._msg_in_flight` / `message_consumed` → `inFlight`, `consumeSlot`, `POut.respectsCap`
+* `BaseRequest.__init__` raising on a lazily validated URL → `MsgInfo.badUrl`
 
 The HTTP parser itself (`HttpParser.feed_data`) is **not** re-modelled here (that is
 `AioModel.Http`): every call the connection makes to it consumes one recorded output `POut`
